@@ -83,6 +83,57 @@ def thorough_extras(pid, rules, results, errors):
             st = "MISSED"
             errors.append("self-test: seeded change %s is no longer reported under %s" % (os.path.basename(d), pid))
         out["seeded"].append(dict(seed=os.path.basename(d), status=st))
+    # (1b) false-alarm side: behaviour-preserving edits (variants.B) and the sub-agents' refactorings must
+    # leave THIS property's rules silent
+    import shutil, tempfile
+    out["benign"] = []
+
+    def _silent_on(name, prepare):
+        d = tempfile.mkdtemp(prefix="rxben-", dir="/var/tmp")
+        try:
+            TP.copy_repo(d)
+            if not prepare(d):
+                return (name, "SKIPPED", "")
+            try:
+                res = TP.analyse(d)
+            except FACTS.FactsError:
+                return (name, "SKIPPED", "does not compile")
+            viol, errs2 = res.get(pid, ([], []))
+            bad = ["[%s] %s" % (x.rule, x.keystr()) for x in viol] + errs2
+            return (name, "ALARM" if bad else "SILENT", "; ".join(bad[:2]))
+        finally:
+            shutil.rmtree(d, ignore_errors=True)
+
+    def _prep_edit(v):
+        def f(d):
+            for (fn_, old, new) in v["edits"]:
+                pth = os.path.join(d, fn_)
+                if not os.path.exists(pth):
+                    return False
+                src = open(pth).read()
+                if old not in src:
+                    return False
+                open(pth, "w").write(src.replace(old, new))
+            for fn_, content in v["adds"].items():
+                open(os.path.join(d, fn_), "w").write(content)
+            return True
+        return f
+
+    def _prep_patch(pp):
+        def f(d):
+            subprocess.check_call(["git", "init", "-q"], cwd=d)
+            return subprocess.run(["git", "apply", "--whitespace=nowarn", pp], cwd=d, stdout=subprocess.DEVNULL,
+                                  stderr=subprocess.DEVNULL).returncode == 0
+        return f
+
+    jobs = [(v["name"], _prep_edit(v)) for v in VV.B] + \
+           [(os.path.basename(pp), _prep_patch(pp)) for pp in sorted(glob.glob(os.path.join(VERIF, "refactors", "*.diff")))]
+    with ThreadPoolExecutor(max_workers=8) as ex:
+        bres = list(ex.map(lambda j: _silent_on(*j), jobs))
+    for (name, st, why) in bres:
+        out["benign"].append(dict(edit=name, status=st, detail=why[:200]))
+        if st == "ALARM":
+            errors.append("self-test: behaviour-preserving edit %s raises an alarm under %s: %s" % (name, pid, why[:200]))
     try:
         fx2 = FACTS.build_facts(REPO, extra_rustflags="-C debug-assertions=off")
         P2 = load_program(fx2); E2 = Effects(P2); H2 = Handlers(P2, E2)
@@ -99,9 +150,10 @@ def thorough_extras(pid, rules, results, errors):
     except FACTS.FactsError as e:
         errors.append("second build configuration failed: %s" % e)
     nd = sum(1 for x in out["variants"] if x["status"] == "DETECTED")
-    print("thorough self-test: %d/%d variants detected (%d skipped), seeded %s, second build %s"
+    print("thorough self-test: %d/%d variants detected (%d skipped), seeded %s, benign/refactor edits silent %d/%d, second build %s"
           % (nd, len(vs), sum(1 for x in out["variants"] if x["status"] == "SKIPPED"),
-             [(x["seed"], x["status"]) for x in out["seeded"]], out["second_build"]))
+             [(x["seed"], x["status"]) for x in out["seeded"]],
+             sum(1 for x in out["benign"] if x["status"] == "SILENT"), len(out["benign"]), out["second_build"]))
     return out
 
 
